@@ -19,6 +19,8 @@ pub struct TaskSet {
     pub usages: Vec<i32>,
     pub cap: i32,
     pub side: Option<Con>,
+    /// further side constraints
+    pub more: Vec<Con>,
 }
 
 impl TaskSet {
@@ -33,6 +35,7 @@ impl TaskSet {
         if let Some(s) = &self.side {
             cons.push(s.clone());
         }
+        cons.extend(self.more.iter().cloned());
         Model::new(self.vars.clone(), cons)
     }
 }
@@ -86,6 +89,7 @@ pub fn task_sets(tier: Tier) -> Vec<TaskSet> {
                                             usages: vec![u0, u1],
                                             cap,
                                             side: None,
+                                            more: vec![],
                                         });
                                     }
                                 }
@@ -127,6 +131,7 @@ pub fn task_sets(tier: Tier) -> Vec<TaskSet> {
                                     usages: vec![a.1, b.1, c.1],
                                     cap,
                                     side: None,
+                                            more: vec![],
                                 };
                                 out.push(base.clone());
                                 let mut with_side = base.clone();
@@ -189,6 +194,7 @@ pub fn task_sets(tier: Tier) -> Vec<TaskSet> {
                                 usages: tasks.iter().map(|t| t.2).collect(),
                                 cap,
                                 side: None,
+                                            more: vec![],
                             });
                         }
                     }
@@ -196,6 +202,76 @@ pub fn task_sets(tier: Tier) -> Vec<TaskSet> {
             }
         }
     }
+    out.extend(profile_sets());
+    out
+}
+
+/// Task sets in which one decision builds two separate overloaded profiles at once (through side
+/// constraints), with flexible tasks whose domains span both profiles: several profiles
+/// propagate on one task in a single invocation (holes, sequences, cached explanations).
+pub fn profile_sets() -> Vec<TaskSet> {
+    let v = View::id;
+    let mut out = vec![];
+    // L1: b = a + 4; a in {2,5}, b in {6,9}; t spans both
+    out.push(TaskSet {
+        vars: vec![VarDecl::from_values(&[2, 5]), VarDecl::from_values(&[6, 9]), VarDecl::interval(0, 9)],
+        starts: vec![v(0), v(1), v(2)],
+        durations: vec![2, 2, 1],
+        usages: vec![2, 2, 1],
+        cap: 2,
+        side: Some(Con::BinEq(v(1), View::new(0, 1, 4))),
+        more: vec![],
+    });
+    // L2: a switch k fixes a and b through two different constraints in one round
+    for (tdur, tuse, cap) in [(1, 1, 2), (2, 1, 2), (1, 2, 3)] {
+        out.push(TaskSet {
+            vars: vec![
+                VarDecl::interval(0, 1),
+                VarDecl::from_values(&[2, 5]),
+                VarDecl::from_values(&[6, 9]),
+                VarDecl::interval(0, 9),
+            ],
+            starts: vec![v(1), v(2), v(3)],
+            durations: vec![2, 2, tdur],
+            usages: vec![cap, cap, tuse],
+            cap,
+            side: Some(Con::BinEq(v(1), View::new(0, 3, 2))),
+            more: vec![Con::BinEq(v(2), View::new(0, 3, 6))],
+        });
+    }
+    // L3: the same with a second flexible task and partial profiles (two tasks per profile)
+    out.push(TaskSet {
+        vars: vec![
+            VarDecl::interval(0, 1),
+            VarDecl::from_values(&[2, 5]),
+            VarDecl::from_values(&[6, 9]),
+            VarDecl::interval(0, 9),
+            VarDecl::interval(1, 8),
+        ],
+        starts: vec![v(1), v(2), v(3), v(4)],
+        durations: vec![2, 2, 1, 2],
+        usages: vec![2, 2, 1, 1],
+        cap: 2,
+        side: Some(Con::BinEq(v(1), View::new(0, 3, 2))),
+        more: vec![Con::BinEq(v(2), View::new(0, 3, 6))],
+    });
+    // L4: profiles built from two tasks each (one fixed, one driven by the switch)
+    out.push(TaskSet {
+        vars: vec![
+            VarDecl::interval(0, 1),
+            VarDecl::from_values(&[2]),
+            VarDecl::from_values(&[2, 4]),
+            VarDecl::from_values(&[7]),
+            VarDecl::from_values(&[7, 9]),
+            VarDecl::interval(0, 9),
+        ],
+        starts: vec![v(1), v(2), v(3), v(4), v(5)],
+        durations: vec![2, 2, 2, 2, 1],
+        usages: vec![1, 1, 1, 1, 1],
+        cap: 2,
+        side: Some(Con::BinEq(v(2), View::new(0, -2, 4))),
+        more: vec![Con::BinEq(v(4), View::new(0, -2, 9))],
+    });
     out
 }
 
@@ -208,7 +284,7 @@ impl Property for C08 {
     }
     fn rule(&self, tier: Tier) -> String {
         format!(
-            "All task sets with 2 tasks (start domains from {} shapes incl. negative values and holes, start views x/-x{}, durations and usages 0..{}, capacities 1..{}) a family of 3-task sets (with and without a side constraint) and a family of 4-task sets (two fixed tasks leaving a gap of 0-2 time units, a long flexible task that can span both and a short one that fits the gap), each under ALL 144 CumulativeOptions; a case = (task set, option combination, brancher picked by case index from 3); the complete solution set obtained by iteration is compared with the time-point reference semantics. Non-trivial = the reference solution set is neither empty nor everything.",
+            "All task sets with 2 tasks (start domains from {} shapes incl. negative values and holes, start views x/-x{}, durations and usages 0..{}, capacities 1..{}) a family of 3-task sets (with and without a side constraint) and a family of 4-task sets (two fixed tasks leaving a gap of 0-2 time units, a long flexible task that can span both and a short one that fits the gap) and 6 two-profile sets (a 0-1 switch builds two separate overloaded profiles in one propagation round through side constraints while flexible tasks span both), each under ALL 144 CumulativeOptions; a case = (task set, option combination, brancher picked by case index from 3); the complete solution set obtained by iteration is compared with the time-point reference semantics. Non-trivial = the reference solution set is neither empty nor everything.",
             start_shapes(tier).len(),
             if tier.quick() { "" } else { "/x+1/2x" },
             if tier.quick() { 2 } else { 3 },
